@@ -843,7 +843,16 @@ def oracle_embed(ctx, volume=1):
                     break
 
 
+PARTIAL = [
+    {"theorem": "perm_sorts (unbounded, semantic)", "missing": "the loop invariant 'accumulated matrix · (tensor in the original order) = tensor in the current order' is proved only per step (left_perm_single_swap, typed) and as finite decide tables (calcPermFixed_sorts_table, calcPerm_sorts_table_three); proved unbounded: termination (calcPerm_never_fuel), sortedness of the final order (calcPermLoop_sorted), shape-totality of the product-size version (calcPermFixed_total), coded = product sizes for <= 3 subsystems (calcPermLoop_eq_fixed_le3)"},
+    {"theorem": "calc_permutation_matrix total", "missing": "false on the current tree for >= 4 subsystems (D7: calcPerm_total_fails, calcPerm_four_qubits_table)"},
+    {"theorem": "product_statistics for MProcess⊗MProcess", "missing": "false on the current tree (D7b: mprocess_product_layout_fails); POVM layout proved for the raw list (povm_product_raw_layout), not through the outcome permutation"},
+    {"theorem": "embed_physical / embed_statistics", "missing": "block structure proved as finite tables for 1 and 2 qutrits (embed_one_block, embed_two_block); PSD/TP preservation and the Kraus round trip of gates/m-processes are checked by the oracle only"},
+]
+
+
 def oracle(ctx, volume=1):
+    ctx.partial = PARTIAL
     oracle_perm(ctx, volume)
     oracle_tensor(ctx, volume)
     oracle_basis(ctx)
